@@ -169,6 +169,65 @@ def _status_of(st: State, discard_return: bool):
     return ("unknown", vtxt(v))
 
 
+def _int_bound(prog: Program, q: str, depth: int = 0):
+    """largest value a status function can return, by interval evaluation of its returns (all values are taken to be >= 0):
+    integer literals, calls of package functions (their own bound), a local accumulated by  = / += / |=  of such values,
+    possibly shifted by a literal.  None when something else is returned."""
+    fi = prog.funcs.get(q)
+    if fi is None or depth > 4:
+        return None
+    from ..model import walk_no_nested
+
+    def bound(e, acc):
+        if isinstance(e, ast.Constant) and isinstance(e.value, (int, bool)):
+            return int(e.value) if int(e.value) >= 0 else None
+        if isinstance(e, ast.Name) and e.id in acc:
+            return acc[e.id]
+        if isinstance(e, ast.Call):
+            c = attr_chain(e.func)
+            r = prog.resolve_name(fi.module, c) if c and "." not in c else None
+            if r is not None and r[0] == "func":
+                return _int_bound(prog, r[1].qualname, depth + 1)
+            if c in ("int", "bool") and len(e.args) == 1 and c == "bool":
+                return 1
+            return None
+        if isinstance(e, ast.BinOp) and isinstance(e.op, ast.LShift) and isinstance(e.right, ast.Constant) and isinstance(e.right.value, int) and 0 <= e.right.value < 64:
+            b_ = bound(e.left, acc)
+            return None if b_ is None else b_ << e.right.value
+        if isinstance(e, ast.BinOp) and isinstance(e.op, (ast.Add, ast.BitOr)):
+            a_, b_ = bound(e.left, acc), bound(e.right, acc)
+            return None if a_ is None or b_ is None else a_ + b_
+        if isinstance(e, ast.IfExp):
+            a_, b_ = bound(e.body, acc), bound(e.orelse, acc)
+            return None if a_ is None or b_ is None else max(a_, b_)
+        return None
+
+    acc = {}
+    worst = 0
+    for s_ in sorted((x for x in walk_no_nested(fi.node) if isinstance(x, (ast.Assign, ast.AugAssign, ast.Return))), key=lambda x: x.lineno):
+        if isinstance(s_, ast.Assign) and len(s_.targets) == 1 and isinstance(s_.targets[0], ast.Name):
+            b_ = bound(s_.value, acc)
+            old_ = acc.get(s_.targets[0].id)
+            acc[s_.targets[0].id] = b_ if old_ is None or b_ is None else max(old_, b_)  # flow-insensitive: any of the assignments
+            if b_ is None:
+                acc[s_.targets[0].id] = None
+        elif isinstance(s_, ast.AugAssign) and isinstance(s_.target, ast.Name) and isinstance(s_.op, (ast.Add, ast.BitOr)):
+            a_, b_ = acc.get(s_.target.id), bound(s_.value, acc)
+            acc[s_.target.id] = None if a_ is None or b_ is None else a_ + b_
+        elif isinstance(s_, ast.AugAssign) and isinstance(s_.target, ast.Name):
+            acc[s_.target.id] = None
+        elif isinstance(s_, ast.Return):
+            if s_.value is None:
+                continue
+            b_ = bound(s_.value, {k: v for k, v in acc.items() if v is not None})
+            if b_ is None:
+                return None
+            worst = max(worst, b_)
+    if any(isinstance(x, (ast.For, ast.While)) and any(isinstance(y, ast.AugAssign) for y in ast.walk(x)) for x in walk_no_nested(fi.node)):
+        return None  # accumulated in a loop: no bound from the text
+    return worst
+
+
 def vtxt(v) -> str:
     return v.key() if hasattr(v, "key") else repr(v)
 
@@ -236,6 +295,21 @@ def check(prog: Program, tier: str) -> Result:
                               "the worker can report success without having tested the result of validate_input_file"
                               if validations(w) else "the worker reports success on a path that never validates the input file",
                               path=describe_trail(w))
+        elif kind == "prop" and why.split(".")[-1] == "validate_input_file" and validations(w):
+            # the verdict itself is handed on as the status: it is non-zero on this path only if the path has tested it, and
+            # it reaches the operating system modulo 256 - a verdict that can reach 256 can come out as 0 (success)
+            nz = all(w.sign_of(v) and "0" not in w.sign_of(v) for v, _ in validations(w))
+            bd = _int_bound(prog, f"{VAL}.validate_input_file")
+            if bd is None:
+                raise AnalysisError(f"{WORKER}: the validation verdict is used as the status and its range is not understood")
+            okb = nz and bd <= 255
+            res.ob("R18.2", f"worker path that hands the validation verdict on as its status: verdict tested non-zero, at most {bd} (< 256)", okb, prog.loc(wfi, node))
+            if not okb:
+                res.violation("R18.2", f"verdict-as-status|{bd}|{nz}", prog.loc(wfi, node), WORKER,
+                              (f"the worker returns the validation verdict as the process status; validate_input_file can return up to {bd}, and a status of 256 or a multiple of it reaches the "
+                               "operating system as 0: an invalid file is reported as a success") if nz else "the worker returns the validation verdict without having tested it to be non-zero",
+                              path=describe_trail(w))
+            worker_summ[-1] = ("nonzero" if okb else "unknown", why, wit, tested, w)
         elif kind in ("unknown", "value", "prop"):
             raise AnalysisError(f"{WORKER}: status expression not understood: {why}")
 
@@ -248,6 +322,19 @@ def check(prog: Program, tier: str) -> Result:
         if c.exit and c.exit[0] == "return":
             ik, iw = _status_of(c, discard_return=False)
             intended = (ik, iw)
+        if kind == "prop" and why.split(".")[-1] == "validate_input_file" and validations(c):
+            nz = all(c.sign_of(v) and "0" not in c.sign_of(v) for v, _ in validations(c))
+            bd = _int_bound(prog, f"{VAL}.validate_input_file")
+            if bd is None:
+                raise AnalysisError(f"{CMD}: the validation verdict is used as the exit status and its range is not understood")
+            okb = nz and bd <= 255
+            res.ob("R18.2", f"command path [{sig}] exits with the validation verdict: tested non-zero, at most {bd} (< 256)", okb, prog.loc(cfi, node))
+            if not okb:
+                res.violation("R18.2", f"verdict-as-status|{bd}|{nz}", prog.loc(cfi, node), CMD,
+                              (f"the command exits with the validation verdict; validate_input_file can return up to {bd}, and a status of 256 or a multiple of it reaches the operating system "
+                               "as 0: an invalid file is reported as valid") if nz else "the command exits with the validation verdict without having tested it to be non-zero",
+                              path=describe_trail(c))
+            continue
         if kind == "prop":
             callee = why.split(".")[-1]
             if callee != WORKER.split(".")[-1]:
@@ -292,7 +379,23 @@ def check(prog: Program, tier: str) -> Result:
         # the worker's status does not reach the process: every path through the call was judged above (status 0 => witness)
         res.notes.append("the worker's return value does not reach the process status on any path")
 
-    _check_sections(prog, res)
+    # R18.9 the verdict and the run describe the file as it is NOW: nothing on the path from the command to the validators
+    #       answers from a cache keyed by the path (decided by the C13 machinery, R13.13, restricted to this layer)
+    from . import c13 as _c13
+
+    tmp = Result("C13")
+    _c13._check_decorator_memos(prog, tmp)
+    hits = [f for f in tmp.findings if f.func.startswith((VAL + ".", MGR + "."))]
+    res.ob("R18.9", "input files are read afresh by every validation / run (no path-keyed cache in the command-line layer)", not hits, "ghedesigner/validate.py")
+    for f in hits:
+        res.violation("R18.9", f.key.split("|", 1)[-1], f.where, f.func, f.message + " - the verdict and the exit status then describe the file as it was when first read")
+    try:
+        _check_sections(prog, res)
+    except AnalysisError as e:
+        if not res.findings:
+            raise
+        # a violation has been established already: report it; what could not be analysed after it is noted, not fatal
+        res.notes.append(f"not analysed after the violation(s) above: {e}")
     _check_case(prog, res)
     # R18.7 dispatch validators: a name that is not in the name -> schema map is refused.  Accepted: the subscript MAP[name]
     #       (after a membership test, or raising KeyError = non-zero status), or MAP.get(name, F) when schema F itself refuses
@@ -712,6 +815,14 @@ _VIF_NEW = """    err_count = validate_file_structure(instance)
 """
 
 VARIANTS = [
+    Variant("bit-mask verdict of ten checks handed on as the process status: design / loads errors wrap to 0 (seeded C18_i)", "break",
+            [(MGR, "    if validate_input_file(input_file_path) != 0:\n        return 1\n\n    inputs = loads", "    validation_status = validate_input_file(input_file_path)\n    if validation_status != 0:\n        return validation_status\n\n    inputs = loads"),
+             (MGR, "            if validate_input_file(input_path) != 0:\n                logger.error(\"Schema validation error. See previous error message for details.\")\n                exit(1)", "            validation_status = validate_input_file(input_path)\n            if validation_status != 0:\n                logger.error(\"Schema validation error. See previous error message for details.\")\n                exit(validation_status)"),
+             (VAL, "    err_count = 0\n    err_count += validate_file_structure(instance)\n    err_count += validate_fluid(instance[\"fluid\"])\n    err_count += validate_grout(instance[\"grout\"])\n    err_count += validate_soil(instance[\"soil\"])\n    err_count += validate_pipe(instance[\"pipe\"])\n    err_count += validate_borehole(instance[\"borehole\"])\n    err_count += validate_simulation(instance[\"simulation\"])\n    err_count += validate_geometric(instance[\"geometric_constraints\"])\n    err_count += validate_design(instance[\"design\"])\n    err_count += validate_loads(instance[\"loads\"])\n    return err_count",
+              "    status = 0\n    status |= validate_file_structure(instance) << 0\n    status |= validate_fluid(instance[\"fluid\"]) << 1\n    status |= validate_grout(instance[\"grout\"]) << 2\n    status |= validate_soil(instance[\"soil\"]) << 3\n    status |= validate_pipe(instance[\"pipe\"]) << 4\n    status |= validate_borehole(instance[\"borehole\"]) << 5\n    status |= validate_simulation(instance[\"simulation\"]) << 6\n    status |= validate_geometric(instance[\"geometric_constraints\"]) << 7\n    status |= validate_design(instance[\"design\"]) << 8\n    status |= validate_loads(instance[\"loads\"]) << 9\n    return status")], "R18.2"),
+    Variant("the error count (at most 10) handed on as the process status", "benign",
+            [(MGR, "    if validate_input_file(input_file_path) != 0:\n        return 1\n\n    inputs = loads", "    validation_status = validate_input_file(input_file_path)\n    if validation_status != 0:\n        return validation_status\n\n    inputs = loads"),
+             (MGR, "            if validate_input_file(input_path) != 0:\n                logger.error(\"Schema validation error. See previous error message for details.\")\n                exit(1)", "            validation_status = validate_input_file(input_path)\n            if validation_status != 0:\n                logger.error(\"Schema validation error. See previous error message for details.\")\n                exit(validation_status)")]),
     Variant("unknown design method falls back to the rectangle schema, whose const the draft-04 validator ignores (seeded C18_g)", "break",
             [(VAL, '    if method not in schema_map:\n        print("Geometric constraint method not recognized.", file=sys.stderr)\n        return 1\n\n    return validate_schema_instance(\n        schema_file_name=schema_map[method],',
               '    return validate_schema_instance(\n        schema_file_name=schema_map.get(method, "geometric_rectangle.schema.json"),')], "R18.7"),
